@@ -38,7 +38,11 @@ def run_repo_tests(case):
     with tempfile.TemporaryDirectory() as d:
         rep = os.path.join(d, "contracts.json")
         env = dict(os.environ, VERIF_CONTRACT_REPORT=rep, PYTHONPATH=os.pathsep.join([str(common.REPO / "src"), str(common.VERIF), str(common.DEPS)]))
-        p = subprocess.run([common.PY, "-m", "pytest", "-q", "-p", "no:cacheprovider", "-p", "vf.hooks.pytest_plugin", "--timeout=900", "-x", "--deselect", "tests/nanoemoji_test.py", "--deselect", "tests/maximum_color_test.py", "tests"], cwd=str(common.REPO), env=env, capture_output=True, text=True, timeout=1100)
+        # run from a scratch copy of tests/: some tests leave files in the working directory
+        import shutil
+
+        shutil.copytree(str(common.REPO / "tests"), os.path.join(d, "tests"))
+        p = subprocess.run([common.PY, "-m", "pytest", "-q", "-p", "no:cacheprovider", "-p", "vf.hooks.pytest_plugin", "--timeout=900", "-x", "--deselect", "tests/nanoemoji_test.py", "--deselect", "tests/maximum_color_test.py", "tests"], cwd=d, env=env, capture_output=True, text=True, timeout=1100)
         try:
             data = json.load(open(rep))
         except Exception:
@@ -320,7 +324,7 @@ def run_case(case):
         if ok.any():
             dev = float(np.abs(t_in - t_out)[ok].max())
             res["maxes"]["B.max_dt"] = max(res["maxes"].get("B.max_dt", 0), dev)
-            if dev > 1e-5 * (1 + float(np.abs(t_in[ok]).max())):
+            if dev > 1e-4 * (1 + float(np.abs(t_in[ok]).max())):  # far below the F2Dot14 quantum of stop offsets (6e-5 x colour slope)
                 res["violations"].append({"what": f"gradient colour parameter changes under apply_transform (dt {dev:.3g})", "affine": list(t), "gradient": repr(g)[:300], "result": repr(out)[:400]})
         bump("B.t_checked")
         # and through the compiler: fields after decompile within one quantum
@@ -338,7 +342,7 @@ def run_case(case):
         else:
             pairs += [(po.x2, leaf.p2[0]), (po.y2, leaf.p2[1])]
         for dec, want in pairs:
-            if abs(dec - want) > 0.5 + 1e-6:
+            if abs(dec - want) > 1.0 + 1e-6:  # the compiler may round or truncate to the integer field; a wrap / clamp is far beyond that
                 res["violations"].append({"what": f"gradient field decompiles to {dec}, requested {want}: silently wrapped / clamped", "affine": list(t)})
                 break
 
